@@ -173,6 +173,9 @@ func C15(c *core.Ctx) {
 	// the close frame cannot be written while the read side is healthy and silent: the
 	// connection must be closed all the same and Listen must return
 	c15CloseFrameFails(c)
+	// a custom ReadHandler that rejects a healthy message while the peer keeps talking: Listen goes on
+	// (or returns) but the reader must still end, the connection must still close promptly
+	c15HandlerRejects(c)
 	// no reader goroutine is left behind
 	time.Sleep(50 * time.Millisecond)
 	if left := runtime.NumGoroutine() - base; left > 2 {
@@ -304,6 +307,95 @@ func c15ParallelClosers(c *core.Ctx, rounds int) {
 	}
 	c.Eval()
 	c.Hist(fmt.Sprintf("free-running: %d rounds of 4 parallel closers", rounds))
+}
+
+// c15HandlerRejects: the application's ReadHandler returns an error of its own for a healthy message (legal
+// under the documented contract); the peer then sends more messages and finally closes (or fails).
+func c15HandlerRejects(c *core.Ctx) {
+	scripts := [][]string{{"d", "d", "c1000"}, {"d", "c1000"}, {"d", "d", "d", "n"}, {"d", "d", "c1001"}, {"d", "d"}}
+	for si, sc := range scripts {
+		for rejectAt := int32(1); rejectAt <= 2 && int(rejectAt) <= len(sc)-1; rejectAt++ {
+			ec := fakes.NewExtConn()
+			ec.Script = peer(sc...)
+			ec.CloseFrameOK = true
+			var seen int32
+			conn, err := ws.NewConnection(ec, ws.ConnectionOptions{CloseDeadline: wsCloseDeadline,
+				ReadHandler: func(cn ws.Connection, _ int, _ []byte, err error) error {
+					if err != nil {
+						_ = cn.Close()
+						return err
+					}
+					if atomic.AddInt32(&seen, 1) == rejectAt {
+						return errors.New("handler rejects this message")
+					}
+					return nil
+				}})
+			if err != nil {
+				panic(err)
+			}
+			res := make(chan error, 1)
+			go func() { res <- conn.Listen() }()
+			replay := map[string]interface{}{"peer": strings.Join(sc, ","), "handler_rejects_message": rejectAt}
+			silentTail := sc[len(sc)-1] == "d" // the peer goes silent after its data: Listen keeps waiting, which is right
+			var lerr error
+			returned := false
+			select {
+			case lerr = <-res:
+				returned = true
+			case <-time.After(300 * time.Millisecond):
+			}
+			if !returned && !silentTail {
+				c.Violation("judge-go", "c15-listen-hangs", "Listen did not return although the peer closed / failed after the handler rejected a message", replay)
+			}
+			if returned && lerr == nil {
+				c.Violation("judge-go", "c15-listen-result", "Listen returned nil although the handler returned an error for a message", replay)
+			}
+			t0 := time.Now()
+			cerr := conn.Close()
+			dur := time.Since(t0)
+			if !returned {
+				select {
+				case <-res:
+				case <-time.After(2 * time.Second):
+					c.Violation("judge-go", "c15-listen-hangs", "Listen did not return within 2 s after Close (the handler had rejected a message)", replay)
+				}
+			}
+			c.Eval()
+			c.Hist(fmt.Sprintf("handler rejects healthy message %d, peer script %d", rejectAt, si))
+			if cerr != nil && strings.Contains(cerr.Error(), "close deadline expired") && !silentTail {
+				c.Violation("judge-go", "c15-slow-close", fmt.Sprintf("Close waited for the whole close deadline (%v) although the peer had already closed / failed", dur), replay)
+			}
+			if dur > wsCloseDeadline+250*time.Millisecond {
+				c.Violation("judge-go", "c15-slow-close", fmt.Sprintf("Close took %v", dur), replay)
+			}
+			if ec.NumCloses() != 1 {
+				c.Violation("judge-go", "c15-underlying-close", fmt.Sprintf("the underlying connection was closed %d times", ec.NumCloses()), replay)
+			}
+			// the reader has ended: the listening flag is cleared and another Listen is not refused as "already listening"
+			cleared := false
+			for i := 0; i < 200; i++ {
+				if conn.ConnState()&ws.ConnStateListening == 0 {
+					cleared = true
+					break
+				}
+				time.Sleep(time.Millisecond)
+			}
+			if !cleared {
+				c.Violation("judge-go", "c15-reader-leak", "the connection is closed and Listen has returned, but it still counts as listening (the read loop never ended)", replay)
+			} else {
+				again := make(chan error, 1)
+				go func() { again <- conn.Listen() }()
+				select {
+				case e := <-again:
+					if e != nil && strings.Contains(e.Error(), "already listening") {
+						c.Violation("judge-go", "c15-reader-leak", "Listen after closure is refused as already listening", replay)
+					}
+				case <-time.After(2 * time.Second):
+					c.Violation("judge-go", "c15-listen-hangs", "a Listen after closure did not return within 2 s", replay)
+				}
+			}
+		}
+	}
 }
 
 func c15CloseFrameFails(c *core.Ctx) {
